@@ -42,6 +42,24 @@ type obs struct {
 	genDone    bool
 	redValue   string
 	redStarted bool
+	seq        int
+	sentAt     map[int]int // item -> tick at which the generator's send completed
+	redWriteAt int         // tick at which the reducer started its first Write
+}
+
+func (o *obs) tick() int { vrt.Obs(); o.seq++; return o.seq }
+
+func (s scen) countCancels() int {
+	n := 0
+	for _, b := range s.mb {
+		if strings.HasPrefix(b, "c") {
+			n++
+		}
+	}
+	if s.red == "cancel" {
+		n++
+	}
+	return n
 }
 
 func (s scen) has(prefix string) bool {
@@ -54,7 +72,7 @@ func (s scen) has(prefix string) bool {
 }
 
 func (s scen) run(r *vrt.Run) {
-	o := &obs{mapped: map[int]int{}, reduced: map[int]int{}}
+	o := &obs{mapped: map[int]int{}, reduced: map[int]int{}, sentAt: map[int]int{}}
 	n := len(s.mb)
 	generate := func(source chan<- any) {
 		defer func() { vrt.Obs(); o.genDone = true }()
@@ -63,6 +81,7 @@ func (s scen) run(r *vrt.Run) {
 				panic("gen-panic")
 			}
 			source <- i
+			o.sentAt[i] = o.tick()
 		}
 		if s.gen == "panic" && n == 0 {
 			panic("gen-panic")
@@ -119,6 +138,7 @@ func (s scen) run(r *vrt.Run) {
 				break
 			}
 			o.redValue = "first"
+			o.redWriteAt = o.tick()
 			w.Write("first")
 			return
 		}
@@ -130,6 +150,7 @@ func (s scen) run(r *vrt.Run) {
 		}
 		sort.Ints(seen)
 		o.redValue = fmt.Sprint(seen)
+		o.redWriteAt = o.tick()
 		switch s.red {
 		case "all1":
 			w.Write(o.redValue)
@@ -180,6 +201,18 @@ func (s scen) run(r *vrt.Run) {
 		}
 		if o.maxActive > s.workers {
 			r.Failf("%d mappers ran at the same time, workers=%d", o.maxActive, s.workers)
+		}
+		// cancel(err) records the error and only then drains the source: an item whose send
+		// completed but which was never mapped (checked now, at quiescence), before the reducer
+		// began to write, proves that the error was already recorded when the output was
+		// produced - the call must have returned it
+		if s.countCancels() > 0 && !s.has("panic") && s.gen == "ok" && s.red != "panic" && s.ctx == "bg" && strings.HasPrefix(outcome, "val:") && o.redWriteAt > 0 {
+			for i, at := range o.sentAt {
+				if o.mapped[i] == 0 && at < o.redWriteAt {
+					r.Failf("cancel(err) had already taken effect (item %d was drained, never mapped, before the reducer wrote) but the call returned %s instead of the error", i, outcome)
+					break
+				}
+			}
 		}
 	})
 	func() {
@@ -463,6 +496,9 @@ func scenarios() []scen {
 	add(scen{entry: "MapReduce", workers: 2, mb: []string{"w1", "w1"}, red: "cancel", bound: hi})
 	add(scen{entry: "MapReduce", workers: 1, mb: []string{"w1"}, red: "cancel", bound: hi})
 	add(scen{entry: "MapReduce", workers: 2, mb: []string{"cerrA", "w1"}, red: "first1", bound: hi})
+	add(scen{entry: "MapReduce", workers: 2, mb: []string{"w1", "cerrA", "w1"}, red: "first1", bound: lo})
+	add(scen{entry: "MapReduce", workers: 1, mb: []string{"w1", "cerrA", "w1"}, red: "first1", bound: lo})
+	add(scen{entry: "MapReduceVoid", workers: 2, mb: []string{"w1", "cerrA", "w1"}, red: "first1", bound: lo})
 	// C. panics
 	for _, mb := range [][]string{{"panic"}, {"w1", "panic"}, {"panic", "w1"}, {"panic", "panic"}, {"w1", "panic", "w1"}} {
 		for _, w := range []int{1, 2} {
